@@ -5,3 +5,4 @@ CONSTANTS
   Stride = 1
   Pairs = 600
   Randoms = 600
+  NBombs = 6
